@@ -45,6 +45,15 @@ EXPLANATION = (
     "holds at every non-raising exit of the method and kills what the method "
     "may store, with its parameters mapped to the call's arguments, so the "
     "resolve/fill sequence of process_module may live in a private helper; "
+    "the `.ast = v` store of PickledPyiLoader.load_module into its module-map "
+    "entry is recognised as `self._modules[k].ast = v` or as `m.ast = v` "
+    "through a local m bound exactly once in the function to "
+    "`self._modules[k]` (plain assignment, not a parameter, never "
+    "rebound/deleted) whose binding reaches the store on every path with no "
+    "call, no store into/of self._modules and no rebinding of a name in k in "
+    "between (so m still is the entry); a `.ast` store through a local bound "
+    "to a self._modules[..] entry that is not such a live alias is an "
+    "analysis error; "
     "R6.4 Annotated "
     "marker strings and metadata tags written by output.py/attr_overlay are "
     "the ones convert.py, decorate.py and the parser test for; R6.5 every "
@@ -844,6 +853,101 @@ def _classify_returns(fn, f, delegates, label_fact):
   return ok, details
 
 
+def _aliased_entry_ast_stores(fn):
+  """`<name>.ast = v` stores of fn whose <name> is a live once-bound alias of `self._modules[<key>]`.
+
+  <name> must be bound exactly once in fn (a plain `name = self._modules[<key>]`; not a parameter, no other
+  store/del/global of the name anywhere in fn, nested scopes included), and the binding must reach the store on
+  every path with nothing in between that could make the alias stale: any call, any store/del into or of
+  `self._modules`, any rebinding of a name the key mentions ends the alias.  A `.ast` store through a name
+  that is bound to a `self._modules[..]` subscript somewhere but is not such a live alias -> AnalysisError.
+  """
+  def entry_key(v):
+    if isinstance(v, ast.Subscript) and dotted(v.value) == "self._modules":
+      return src(v.slice)
+    return None
+  cand = {}     # name -> [binding statements `name = self._modules[..]`]
+  for n in walk_no_nested(fn):
+    if isinstance(n, (ast.Assign, ast.AnnAssign)) and n.value is not None:
+      for t in (n.targets if isinstance(n, ast.Assign) else [n.target]):
+        if isinstance(t, ast.Name) and entry_key(n.value) is not None:
+          cand.setdefault(t.id, []).append(n)
+    elif isinstance(n, ast.NamedExpr) and entry_key(n.value) is not None:
+      cand.setdefault(n.target.id, []).append(n)
+  if not cand:
+    return []
+  params = {a.arg for a in ast.walk(fn.args) if isinstance(a, ast.arg)}
+  n_stores, scoped = {}, set()
+  for n in ast.walk(fn):
+    if isinstance(n, ast.Name) and not isinstance(n.ctx, ast.Load):
+      n_stores[n.id] = n_stores.get(n.id, 0) + 1
+    elif isinstance(n, (ast.Global, ast.Nonlocal)):
+      scoped |= set(n.names)
+    elif isinstance(n, ast.ExceptHandler) and n.name:
+      n_stores[n.name] = n_stores.get(n.name, 0) + 1
+    elif isinstance(n, ast.alias):
+      nm = (n.asname or n.name).split(".")[0]
+      n_stores[nm] = n_stores.get(nm, 0) + 1
+    elif isinstance(n, (ast.FunctionDef, ast.AsyncFunctionDef, ast.ClassDef)) and n is not fn:
+      n_stores[n.name] = n_stores.get(n.name, 0) + 1
+    elif isinstance(n, (ast.MatchAs, ast.MatchStar)) and n.name:
+      n_stores[n.name] = n_stores.get(n.name, 0) + 1
+    elif isinstance(n, ast.MatchMapping) and n.rest:
+      n_stores[n.rest] = n_stores.get(n.rest, 0) + 1
+  good = {}     # name -> (binding, names the key mentions)
+  for name, binds in cand.items():
+    b = binds[0]
+    if len(binds) == 1 and isinstance(b, ast.Assign) and len(b.targets) == 1 and \
+        n_stores.get(name, 0) == 1 and name not in params and name not in scoped:
+      good[name] = (b, {x.id for x in ast.walk(b.value.slice) if isinstance(x, ast.Name)})
+
+  def gen(unit):
+    return [f"alias:{nm}" for nm, (b, _) in good.items() if unit is b]
+  def kill(unit):
+    if isinstance(unit, (ast.FunctionDef, ast.AsyncFunctionDef, ast.ClassDef)):
+      return None
+    if any(unit is b for b, _ in good.values()):
+      return None      # the binding itself: a subscript load of self._modules, no call (checked below)
+    dead_all = False
+    rebound = set()
+    for x in ast.walk(unit):
+      if isinstance(x, (ast.Call, ast.Await, ast.Yield, ast.YieldFrom)):
+        dead_all = True
+      elif isinstance(x, (ast.Subscript, ast.Attribute, ast.Name)) and not isinstance(x.ctx, ast.Load):
+        d = dotted(x.value) if isinstance(x, ast.Subscript) else dotted(x)
+        if d in ("self._modules", "self") or (isinstance(x, ast.Subscript) and d is None):
+          dead_all = True
+        if isinstance(x, ast.Name):
+          rebound.add(x.id)
+    if dead_all:
+      return lambda f: f.startswith("alias:")
+    if rebound:
+      return lambda f: f.startswith("alias:") and (good[f[6:]][1] & rebound)
+    return None
+  for b, _ in good.values():
+    if any(isinstance(x, (ast.Call, ast.Await, ast.Yield, ast.YieldFrom, ast.NamedExpr)) for x in ast.walk(b)):
+      raise AnalysisError(f"PickledPyiLoader.load_module: `{src(b)}`: the key of the aliased module-map "
+                          "entry is not a plain expression")
+  fa = flow.flow(fn, gen, kill, mode="must") if good else None
+  out = []
+  for n in walk_no_nested(fn):
+    if not isinstance(n, (ast.Assign, ast.AugAssign, ast.AnnAssign)):
+      continue
+    for t in (n.targets if isinstance(n, ast.Assign) else [n.target]):
+      for sub in (t.elts if isinstance(t, (ast.Tuple, ast.List)) else [t]):
+        if isinstance(sub, ast.Attribute) and sub.attr == "ast" and isinstance(sub.value, ast.Name) \
+            and sub.value.id in cand:
+          nm = sub.value.id
+          if nm not in good or not isinstance(n, ast.Assign) or len(n.targets) != 1 or sub is not t \
+              or f"alias:{nm}" not in (fa.before.get(n) or frozenset()):
+            raise AnalysisError(
+                f"PickledPyiLoader.load_module: `{src(n)}` (line {n.lineno}) stores through `{nm}`, which is "
+                "bound to a self._modules[..] entry but is not a once-bound alias that is still current "
+                "at the store (rebound, bound on some paths only, or a call / module-map store in between)")
+          out.append(n)
+  return out
+
+
 @rule("R6.3", "C06", floor=13)
 def r6_3(ctx):
   """Loader paths re-link class pointers before handing out an AST."""
@@ -880,6 +984,7 @@ def r6_3(ctx):
   ast_stores = [n for n in walk_no_nested(pl) if isinstance(n, ast.Assign)
                 and (dotted(n.targets[0]) or src(n.targets[0])).endswith(".ast")
                 and "self._modules" in src(n.targets[0])]
+  ast_stores += _aliased_entry_ast_stores(pl)
   if not ast_stores:
     raise AnalysisError("PickledPyiLoader.load_module: `.ast = ` store not found")
   bad = [src(n) for n in ast_stores
@@ -1507,6 +1612,41 @@ VARIANTS = [
      "expect": "silent",
      "old": "    self._modules[module_name].ast = ast\n    self._modules[module_name].pickle = None\n    self._modules[module_name].has_unresolved_pointers = False",
      "new": "    self._modules[module_name].has_unresolved_pointers = False\n    self._modules[module_name].pickle = None\n    self._modules[module_name].ast = ast"},
+    # R6.3: the stores of PickledPyiLoader.load_module go through a once-bound local alias of the entry (C06-b3r1)
+    {"name": "twin-benign-C06-b3r1-pickled-loader-entry-alias", "rule": "R6.3",
+     "patch": "benign/C06-b3r1/patch.diff", "expect": "silent"},
+    {"name": "twin-pickled-loader-entry-alias", "rule": "R6.3", "file": LOAD,
+     "expect": "silent",
+     "old": "    self._modules[module_name].ast = ast\n    self._modules[module_name].pickle = None\n    self._modules[module_name].has_unresolved_pointers = False",
+     "new": "    module = self._modules[module_name]\n    module.ast = ast\n    module.pickle = None\n    module.has_unresolved_pointers = False"},
+    {"name": "pickled-loader-entry-alias-stores-raw-ast", "rule": "R6.3", "file": LOAD,
+     "expect": "fire",
+     "old": "    self._modules[module_name].ast = ast\n    self._modules[module_name].pickle = None\n    self._modules[module_name].has_unresolved_pointers = False",
+     "new": "    module = self._modules[module_name]\n    module.ast = loaded_ast.ast\n    module.pickle = None\n    module.has_unresolved_pointers = False"},
+    {"name": "pickled-loader-entry-alias-stores-transformed-ast", "rule": "R6.3", "file": LOAD,
+     "expect": "fire",
+     "old": "    self._modules[module_name].ast = ast\n    self._modules[module_name].pickle = None\n    self._modules[module_name].has_unresolved_pointers = False",
+     "new": "    ast = ast.Visit(visitors.ClearClassPointers())\n    module = self._modules[module_name]\n    module.ast = ast\n    module.pickle = None\n    module.has_unresolved_pointers = False"},
+    {"name": "pickled-loader-entry-alias-rebound", "rule": "R6.3", "file": LOAD,
+     "expect": "error",
+     "old": "    self._modules[module_name].ast = ast\n    self._modules[module_name].pickle = None\n    self._modules[module_name].has_unresolved_pointers = False",
+     "new": "    module = self._modules[module_name]\n    if mod_ast:\n      module = self._modules[mod_info.module_name]\n    module.ast = ast\n    module.pickle = None\n    module.has_unresolved_pointers = False"},
+    {"name": "pickled-loader-entry-alias-bound-on-one-path", "rule": "R6.3", "file": LOAD,
+     "expect": "error",
+     "old": "    self._modules[module_name].ast = ast\n    self._modules[module_name].pickle = None\n    self._modules[module_name].has_unresolved_pointers = False",
+     "new": "    if mod_ast:\n      module = self._modules[module_name]\n    module.ast = ast\n    module.pickle = None\n    module.has_unresolved_pointers = False"},
+    {"name": "pickled-loader-entry-alias-stale-after-call", "rule": "R6.3", "file": LOAD,
+     "expect": "error",
+     "old": "    self._modules[module_name].ast = ast\n    self._modules[module_name].pickle = None\n    self._modules[module_name].has_unresolved_pointers = False",
+     "new": "    module = self._modules[module_name]\n    self._load_ast_dependencies(dependencies, lookup_ast=mod_ast, lookup_ast_name=module_name)\n    module.ast = ast\n    module.pickle = None\n    module.has_unresolved_pointers = False"},
+    {"name": "pickled-loader-entry-alias-stale-after-entry-replaced", "rule": "R6.3", "file": LOAD,
+     "expect": "error",
+     "old": "    self._modules[module_name].ast = ast\n    self._modules[module_name].pickle = None\n    self._modules[module_name].has_unresolved_pointers = False",
+     "new": "    module = self._modules[module_name]\n    self._modules[module_name] = self._modules[mod_info.module_name]\n    module.ast = ast\n    module.pickle = None\n    module.has_unresolved_pointers = False"},
+    {"name": "pickled-loader-entry-alias-key-rebound", "rule": "R6.3", "file": LOAD,
+     "expect": "error",
+     "old": "    self._modules[module_name].ast = ast\n    self._modules[module_name].pickle = None\n    self._modules[module_name].has_unresolved_pointers = False",
+     "new": "    module = self._modules[module_name]\n    module_name = mod_info.module_name\n    module.ast = ast\n    module.pickle = None\n    module.has_unresolved_pointers = False"},
     # R6.3 on refactored shapes: the benign refactoring stays silent, the refactoring plus a defect fires
     {"name": "twin-benign-C06-r1-process_module-body-in-helper", "rule": "R6.3",
      "patch": "benign/C06-r1/patch.diff", "expect": "silent"},
